@@ -88,12 +88,18 @@ func CheckHashPassword(clientResp, scramble, encryptPassword []byte) bool {
 	crypt.Write(hashBytes)
 	hash := crypt.Sum(nil)
 
+	// a native response is exactly one SHA1 long; do not modify the caller's buffer,
+	// it is checked against the user's other passwords afterwards
+	if len(clientResp) != len(hash) {
+		return false
+	}
+	stage1 := make([]byte, len(clientResp))
 	for i := range clientResp {
-		clientResp[i] ^= hash[i]
+		stage1[i] = clientResp[i] ^ hash[i]
 	}
 
 	crypt.Reset()
-	crypt.Write(clientResp)
+	crypt.Write(stage1)
 	hash = crypt.Sum(nil)
 
 	return bytes.Equal(hashBytes, hash)
